@@ -1,6 +1,6 @@
 (* C19 property theorems.  Nothing but statements closed by `exact`, a pin, and Print Assumptions. *)
 From ZV.Common Require Import Base Run.
-From ZV.C19 Require Import Model ProofsBytes ProofsMv ProofsCrash ProofsRo.
+From ZV.C19 Require Import Model ProofsBytes ProofsMv ProofsCrash ProofsRo ProofsRoCut.
 Open Scope N_scope.
 
 (* a vector synced from content xs (capacity cap, arbitrary bytes in the unused capacity) reopens as exactly xs *)
@@ -96,6 +96,17 @@ Proof. exact ro_roundtrip_proof. Qed.
 Check ro_roundtrip :
   forall vs neg, Forall (fun v => v < V39) vs -> nlen vs <= RO_MAXSIZE -> ro_decode (ro_encode vs neg) = Some vs.
 Print Assumptions ro_roundtrip.
+
+(* ... and the same file cut short at any byte is refused by open (the header announces the element count before
+   any record is written, so this is what an interrupted build leaves) *)
+Theorem ro_truncated_refused :
+  forall vs neg k, Forall (fun v => v < V39) vs -> nlen vs <= RO_MAXSIZE ->
+    (k < length (ro_encode vs neg))%nat -> ro_decode (firstn k (ro_encode vs neg)) = None.
+Proof. exact ro_truncated_refused_proof. Qed.
+Check ro_truncated_refused :
+  forall vs neg k, Forall (fun v => v < V39) vs -> nlen vs <= RO_MAXSIZE ->
+    (k < length (ro_encode vs neg))%nat -> ro_decode (firstn k (ro_encode vs neg)) = None.
+Print Assumptions ro_truncated_refused.
 
 (* the protocol of the pinned tree (rewrite in place, header-only validation) fails the property; both repairs
    are needed: the same image is refused by the fixed open *)
